@@ -33,6 +33,12 @@ func genVacancyPlanCause(t *rapid.T, forced string) *Plan {
 		case 2:
 			in.WatchDelay = genLatList(t, 3*h, "wd")
 		}
+		if rapid.IntRange(0, 4).Draw(t, "slow_create_answer") == 0 {
+			// "plus operation latencies": one of the candidate's Creates is applied at once but answered a good
+			// second later (longer than any time-out the library has for its other operations)
+			in.SlowWinAnswer = time.Duration(rapid.Int64Range(int64(1050*time.Millisecond), int64(2500*time.Millisecond)).Draw(t, "slow_win_answer"))
+			in.SlowWinN = rapid.IntRange(0, 1).Draw(t, "slow_win_n")
+		}
 		in.WatchFail = rapid.SampledFrom([]int{0, 0, 0, 1, 2, 3}).Draw(t, "watch_fail")
 		in.WatchFailErr = rapid.SampledFrom([]string{"", "", "auth", "invalid", "bucket"}).Draw(t, "watch_fail_err")
 		p.Instances = append(p.Instances, in)
